@@ -783,61 +783,13 @@ def db0 : Db := ⟨[], [], []⟩
 /-- add "a", add "b": "a" became current when it was added, "b" did not -/
 def twoSystems : Mgr := run db0 Mgr.init [.add 97 65 (some [(1, 2)]) false, .add 98 66 none true]
 
-example : twoSystems.cur = some 1 ∧ twoSystems.reg = [(97, 1), (98, 2)] := by decide
-example : MgrInv twoSystems :=
-  run_preserves_MgrInv_partial db0 _ init_inv ⟨trivial, trivial, trivial⟩
-example : DictsWf twoSystems := reachable_DictsWf db0 _
-example : (1 : Sym) ∈ dkeys [((1 : Sym), (2 : Sym))] ∧ twoSystems.heap[1]?.map (·.mapping) = some [(1, 2)] := by decide
 -- a guarded history that does select systems, and one that is not guarded
-example : Guarded db0 Mgr.init [.add 97 65 none false, .add 98 66 none false, .setCurrent (some 2), .setCurrent none] :=
-  ⟨trivial, trivial, ⟨98, by decide⟩, trivial, trivial⟩
-example : ¬ Guarded db0 Mgr.init [.add 97 65 none false, .remove 97, .setCurrent (some 1)] := by
-  rintro ⟨_, _, ⟨id, h⟩, _⟩
-  exact absurd h (by simp [step, addUnitSystem, removeUnitSystem, regHas, regErase, Mgr.init, resolveMapping,
-    setCurrent, Mgr.register, Mgr.unregister, Mgr.currentId, nextCurrent, unregisterCurrent, setListening,
-    nullSys, USys.new, dofList])
 -- `add_first_becomes_current` / `add_keeps_current`
-example : (step db0 Mgr.init (.add 97 65 none false)).out = .ok (.sys 1) ∧ Mgr.init.cur = none := ⟨rfl, rfl⟩
-example : (step db0 twoSystems (.add 99 67 none false)).out = .ok (.sys 3) ∧
-    (step db0 twoSystems (.add 99 67 none false)).log = [] := ⟨rfl, rfl⟩
 -- `remove_current_selects_next_or_none`: removing the current "a" selects "b"; removing the last one selects none
-example : twoSystems.cur = some 1 ∧ (97, 1) ∈ twoSystems.reg := by decide
-example : (step db0 twoSystems (.remove 97)).mgr.cur = some 2 ∧
-    (step db0 twoSystems (.remove 97)).log = [.current 2] := by decide
-example : (run db0 twoSystems [.remove 97, .remove 98]).cur = none ∧
-    runLog db0 twoSystems [.remove 97, .remove 98] = [.current 2, .current 0] := by decide
 -- `remove_other_keeps_current`
-example : (step db0 twoSystems (.remove 98)).mgr.cur = some 1 ∧ (step db0 twoSystems (.remove 98)).log = [] := by
-  decide
 -- acceptance: duplicate id, mapping that misses a template category, template that a system misses
-example : (step db0 twoSystems (.add 97 65 none false)).out = .error .key := rfl
-example : (run db0 twoSystems [.remove 98, .setTemplate [(1, 2)]]).tmpl.isSome = true ∧
-    (step db0 (run db0 twoSystems [.remove 98, .setTemplate [(1, 2)]]) (.add 99 67 (some [(3, 4)]) false)).out
-      = .error .key ∧
-    (step db0 (run db0 twoSystems [.remove 98, .setTemplate [(1, 2)]]) (.add 99 67 (some [(3, 4), (1, 7)]) false)).out
-      = .ok (.sys 3) := ⟨rfl, rfl, rfl⟩
-example : (step db0 twoSystems (.setTemplate [(1, 2)])).out = .error .runtime := rfl   -- "b" is empty
-example : (step db0 (step db0 twoSystems (.remove 98)).mgr (.setTemplate [(1, 2)])).out = .ok .none := rfl
-example : (step db0 twoSystems (.remove 100)).out = .error .key := rfl
 -- `notify_exact`: a default-unit change on the current system is notified, on another system it is not
-example : (step db0 twoSystems (.setDefaultUnit 1 5 6)).log = [.unitChanged 5 (some 6)] := by decide
-example : (step db0 twoSystems (.setDefaultUnit 2 5 6)).log = [] := by decide
-example : (step db0 twoSystems (.removeCategory 1 1)).log = [.unitChanged 1 none] := by decide
-example : (step db0 twoSystems (.removeCategory 1 9)).log = [] := by decide
 -- `GetNewId` skips ids in use: "system 1" taken → "system 2"
-example : (step db0 (step db0 twoSystems (.add (newIdCandidate 1) 0 none false)).mgr .getNewId).out
-    = .ok (.newId (Sym.ofBytes [115, 121, 115, 116, 101, 109, 32, 50])) := by decide +kernel
 -- `convertToCurrent_spec` on the shipped table: 1500 m with default `km` → 3/2 km; no default → unchanged;
 -- a default of another quantity type → units error
-open Barril.Gen in
-example :
-    let m := (step poscDb Mgr.init (.add 97 65 (some [(Sym.ofString "length", Sym.ofString "km")]) false)).mgr
-    (step poscDb m (.convertToCurrent (Sym.ofString "length") (Sym.ofString "m") 1500)).out
-        = .ok (.value (3 / 2) (Sym.ofString "km")) ∧
-    (step poscDb m (.convertToCurrent (Sym.ofString "time") (Sym.ofString "s") 7)).out
-        = .ok (.value 7 (Sym.ofString "s")) ∧
-    (step poscDb (step poscDb m (.setDefaultUnit 1 (Sym.ofString "time") (Sym.ofString "m"))).mgr
-        (.convertToCurrent (Sym.ofString "time") (Sym.ofString "s") 7)).out = .error .units := by
-  decide +kernel
-
 end Barril.Mgr
